@@ -83,7 +83,22 @@ def cmd_confirm(name):
       if not any(c.tag in ('failure', 'error', 'skipped') for c in tc):
         ok.add(tc.get('classname') + '::' + tc.get('name'))
     miss = sorted(want - ok)
+    # tests lost to the watchdog on a loaded machine: retry them alone
+    still = []
+    for t_id in miss:
+      cls_, name_ = t_id.split('::', 1)
+      mod, klass = cls_.rsplit('.', 1) if cls_.count('.') > 1 else (cls_, None)
+      node = mod.replace('.', '/') + '.py::' + \
+          ((klass + '::') if klass else '') + name_
+      r_ = sh('cd %s && PYTHONPATH=%s %s -m pytest -q -p no:cacheprovider '
+              '--timeout=1800 "%s" 2>&1 | tail -1' % (wt, wt, PY, node),
+              timeout=3600)
+      if ' passed' not in r_.stdout or 'failed' in r_.stdout:
+        still.append(t_id)
+    retried = len(miss) - len(still)
+    miss = still
     m['confirmed'] = {
+        'baseline_tests_passing_only_on_retry_alone': retried,
         'repo_head': sh(['git', '-C', REPO, 'rev-parse', '--short',
                          'HEAD']).stdout.strip(),
         'demo_without_patch': {'exit': r0.returncode,
